@@ -415,17 +415,51 @@ def _bug_hunt(W, g, q, timeout, rec, fn, params, replay):
     return False
 
 
+def _snapshot_module_state():
+    """module- and class-level containers of the package under test (memo tables, registries): a replay runs the REAL code in this
+    process and must not leave anything behind that a later symbolic path (whose module clone copies these containers) would see"""
+    import sys
+    snap = []
+    for mn, m in list(sys.modules.items()):
+        if m is None or not (mn == "speckit" or mn.startswith("speckit.")):
+            continue
+        holders = [m] + [v for v in vars(m).values() if isinstance(v, type) and getattr(v, "__module__", None) == mn]
+        for h in holders:
+            for k, v in list(vars(h).items()):
+                if k.startswith("__") or type(v) not in (dict, list, set):
+                    continue
+                try:
+                    snap.append((v, type(v)(v)))
+                except Exception:
+                    pass
+    return snap
+
+
+def _restore_module_state(snap):
+    for live, saved in snap:
+        try:
+            if type(live) is list:
+                live[:] = saved
+            else:
+                live.clear(); live.update(saved)
+        except Exception:
+            pass
+
+
 def replay_goal(fn, params, model, goal_name):
     """run the harness body on the real stack with the model's numbers; True when the goal fails there too"""
     Wc = ConWorld(model)
+    snap = _snapshot_module_state()
     try:
         fn(Wc, **params)
     except Exception as e:
+        _restore_module_state(snap)
         # the real code raises on this input: for a 'never raises' goal that confirms it -- but only when it is the same
         # exception the symbolic run met (anything else is the harness or a stub failing, i.e. an encoder problem)
         info = {"raised": "%s: %s" % (type(e).__name__, str(e)[:300])}
         same = goal_name.startswith("<exception:%s>" % type(e).__name__)
         return (goal_name.endswith("noraise") or same), info
+    _restore_module_state(snap)
     if goal_name not in Wc.goals and getattr(Wc, "resolver", None) is not None:
         v = Wc.resolver(goal_name)
         if v is not None:
